@@ -8,6 +8,9 @@ Protocol vocabulary (treetable):
   foreach_key foreach_value
   it_new  it_next  it_remove [noout=1]  it_drop
   observe                    (new ... obs=sparse: content printed by `observe` only, CONVENTIONS Addendum 2)
+  new ... keys=buf           keys are arena records compared BY CONTENT, every call presents its key from a fresh address
+                             (equal-but-distinct keys: the string-key use); the dump then carries `!kp` per node
+  new ... phys=quiet         the phys section carries a checksum of the tree instead of the dump (the dump on `observe`)
 treeset: new/new_default/destroy, add <e>, remove <e> [noout=1], remove_all, contains <e>, size,
   first, last, greater_than <e>, lesser_than <e>, foreach, it_new/it_next/it_remove/it_drop.
 
@@ -54,13 +57,14 @@ def _key(cmpw):
 class _Hist:
     """builds one history while tracking the ideal content, so that operations stay inside the contract"""
 
-    def __init__(self, kind, cmpw=0, ctor=None, sparse=None):
+    def __init__(self, kind, cmpw=0, ctor=None, sparse=None, extra=""):
         """sparse: None, or an iterator of gaps (5..15): the session runs with obs=sparse and an
-        `observe` is inserted after every gap operations and before `destroy`"""
+        `observe` is inserted after every gap operations and before `destroy`;
+        extra: further constructor options (" keys=buf", " phys=quiet")"""
         self.sparse = sparse
         self.kind = kind          # "table" | "set"
         self.cmpw = cmpw
-        self.ops = [ctor or f"new cmp={cmpw}"]
+        self.ops = [(ctor or f"new cmp={cmpw}") + extra]
         self.default = bool(ctor and ctor.startswith("new_default"))   # libc allocator: fail= cannot fire
         self.m = {}
         self.it_live = False
@@ -221,6 +225,11 @@ class _TreeGen:
             hh = _Hist(self.kind, sparse=itertools.cycle([5 + (i + j) % 11 for j in range(7)]))
             hh.ops = h[:-1]
             out[i] = hh.done()
+        # every fifth history also with keys=buf (equal keys from distinct addresses)
+        for i in range(1, len(out), 5):
+            h = out[i]
+            if h[0].startswith("new") and "keys=" not in h[0]:
+                out.append([h[0] + " keys=buf"] + h[1:])
         return out
 
     def _small_scope(self, tier, focus=None):
@@ -428,7 +437,9 @@ class _TreeGen:
         if allf and rng.random() < 0.05:
             ctor = f"new_default cmp={cmpw}"
         sparse = iter(lambda: rng.randint(5, 15), None) if rng.random() < 1 / 3 else None
-        h = _Hist(self.kind, cmpw, ctor, sparse)
+        # keys=buf in every focus: equal keys from distinct addresses (replace must keep the stored key, lookups must
+        # go through the comparator)
+        h = _Hist(self.kind, cmpw, ctor, sparse, extra=" keys=buf" if rng.random() < 0.3 else "")
         krange = rng.choice([4, 8, 8, 20, 20, 60, 300, 1000])
         q1, q0 = self.q()
 
@@ -559,6 +570,96 @@ class _TreeGen:
                     else:
                         h.remove_all()
         return h.done()
+
+
+def _scale(self, rng, tier):
+    """ROUND12 A: a few LONG histories — >= 1100 keys inserted in sorted / reversed / zig-zag / random order, then
+    several hundred operations on the big tree: removals at the front, the back and in the middle (by key,
+    remove_first / remove_last, through the iterator), replacements of existing keys, lookups and neighbour
+    queries at the boundaries, new keys in between.  obs=sparse with an `observe` every ~50 operations and
+    phys=quiet (checksum instead of the dump); half of them with keys=buf."""
+    out = []
+    styles = ["sorted", "reversed", "zigzag", "random", "inside_out"]
+    nh = 4 if tier == "quick" else 24
+    for i in range(nh):
+        cmpw = [0, 3, 2, 1][i % 4] if i < 4 else rng.choice([0, 1, 2, 3])
+        style = styles[i % len(styles)]
+        buf = (i % 2 == 1)
+        n = rng.randint(1100, 1300 if tier == "quick" else 1800)
+        h = _Hist(self.kind, cmpw, None, iter(lambda: rng.randint(40, 60), None),
+                  extra=" phys=quiet" + (" keys=buf" if buf else ""))
+        base = rng.choice([0, 1, 1000, 2**32 - 600, 2**63 - 600])
+        step = rng.choice([1, 1, 2, 7])
+        ks = [base + step * k for k in orders(n, rng)[style]]
+        for k in ks:
+            h.add(k, rng.choice([None, None, 0, rng.randint(1, 50)]))
+        q1, q0 = self.q()
+        present = lambda: rng.choice(list(h.m)) if h.m else base
+        nops = rng.randint(500, 800)
+        done = 0
+        while done < nops:
+            phase = rng.choice(["front", "back", "middle", "iter", "replace", "lookup", "grow", "ends"])
+            length = rng.randint(10, 80)
+            done += length
+            if phase in ("front", "back"):
+                for _ in range(length):
+                    no = rng.random() < 0.25
+                    if self.kind == "table" and rng.random() < 0.6:
+                        (h.remove_first if phase == "front" else h.remove_last)(no)
+                    elif h.m:
+                        sk = h.sorted_keys()
+                        h.remove(sk[0] if phase == "front" else sk[-1], no)
+            elif phase == "ends" and self.kind == "table":
+                for _ in range(length):
+                    (h.remove_first if rng.random() < 0.5 else h.remove_last)(rng.random() < 0.25)
+            elif phase == "middle":
+                sk = h.sorted_keys()
+                for _ in range(length):
+                    if not sk:
+                        break
+                    # around 1/3, the middle, 2/3 and uniformly
+                    j = rng.choice([len(sk) // 3, len(sk) // 2, 2 * len(sk) // 3, rng.randrange(len(sk))])
+                    h.remove(sk.pop(min(j, len(sk) - 1)), rng.random() < 0.25)
+            elif phase == "iter":
+                h.it_new()
+                skip = rng.choice([0, 0, len(h.m) // 3, len(h.m) // 2])
+                p_rm = rng.choice([0.2, 0.5, 1.0])
+                for _ in range(min(skip, 400)):
+                    h.it_next()
+                for _ in range(length):
+                    h.it_next()
+                    if rng.random() < p_rm:
+                        h.it_remove(noout=rng.random() < 0.25)
+            elif phase == "replace":
+                for _ in range(length):
+                    h.add(present(), rng.randint(1, 50))          # existing key: the stored key must stay
+            elif phase == "lookup":
+                sk = h.sorted_keys()
+                for _ in range(min(length, 30)):
+                    r = rng.random()
+                    if sk and r < 0.6:
+                        k = rng.choice([sk[0], sk[-1], sk[len(sk) // 2], rng.choice(sk)])
+                        h.query(rng.choice(q1), k)
+                    elif r < 0.8:
+                        h.query(rng.choice(q1), base + step * (n + rng.randint(1, 9)))
+                    else:
+                        h.query(rng.choice([x for x in q0 if not x.startswith("foreach")]))
+            else:  # grow: new keys between and beyond the old ones
+                for _ in range(length):
+                    h.add(base + rng.randint(0, step * n + 50))
+        # drain a good part through the front, then everything
+        for _ in range(min(len(h.m), rng.randint(50, 150))):
+            if self.kind == "table":
+                h.remove_first(rng.random() < 0.25)
+            else:
+                h.remove(h.sorted_keys()[0])
+        if rng.random() < 0.5:
+            h.remove_all()
+        out.append(h.done())
+    return out
+
+
+_TreeGen.scale = _scale
 
 
 class TreeTableGen(_TreeGen):
